@@ -306,3 +306,137 @@ def one_config(prefix, trainer, has_thr, has_max, out):
         out.append(Clause(prefix + ".loop.body", "discharged" if r == z3.unsat else "refuted", "z3",
                           "stopping behaviour of the %s%s branch equals the NumPy branch" % (kind2, "/isolated" if iso2 else "")))
     generic_vcs(prefix, guard, brk, cont, has_thr, has_max, out, axioms=list(tr.axioms))
+
+
+def kmeans_fit_loop(prefix, has_thr=True, has_max=True):
+    from contracts import kmeans as KM
+    sub = []
+    F = KM.facts()
+    F.conds.append(T.cmp_cond("<=", ZERO, T.sym("k", "int")))
+    k = T.sym("k", "int")
+    recs = []
+    for kind, isolated in (("numpy", False), ("dask", False), ("dask", True)):
+        I = new_interp({"kmeans.e_step": KM.spec_e_step})
+        I.isolated = isolated
+        rec = {}
+        I.loop_hooks["kmeans.KMeansMachine.fit"] = probe_hook(rec, "step", "distance")
+        Lnext = T.sym("Lnext")
+
+        def m_step_abs(ctx_, stats, n_samples, rec=rec):
+            r = KM.spec_m_step(ctx_, stats, n_samples)
+            rec.setdefault("avg_terms", []).append(r[1])
+            rec.setdefault("n_samples", []).append(n_samples)
+            return (r[0], Lnext)
+        I.contracts["kmeans.m_step"] = K.as_contract(m_step_abs)
+
+        def init_abs(ctx_, self, data):
+            self.fields["centroids_"] = KM.mk_means()
+        I.contracts["kmeans.KMeansMachine.initialize"] = K.as_contract(init_abs)
+        fit = K.lookup(I, "kmeans.KMeansMachine.fit")
+        holder = {}
+
+        def thunk(I=I, rec=rec, kind=kind, holder=holder):
+            m = KM.mk_kmeans(I, centroids=False)
+            if not has_thr:
+                m.fields["convergence_threshold"] = None
+            if not has_max:
+                m.fields["max_iter"] = None
+            x = KM.mk_data(kind=kind)
+            if kind == "dask":
+                x.chunks = RowChunks(KM.Nn)
+            rec.clear()
+            try:
+                I.call(fit, [m, x], {})
+            except LoopDone:
+                pass
+            r = dict(rec)
+            r["machine"] = m
+            return r
+        try:
+            paths = I.run_paths(thunk)
+        except ModelError as e:
+            sub.append(Clause(prefix + ".loop.body", "undecided", "", "%s branch (isolated=%s): %s at %s" % (kind, isolated, e, I.loc)))
+            continue
+        recs.append((kind, isolated, I, paths))
+    for kind, isolated, I, paths in recs:
+        label = "%s%s" % (kind, "/isolated" if isolated else "")
+        for pc, (kk, r) in paths:
+            if kk != "ok":
+                sub.append(Clause(prefix + ".loop.body", "refuted", "npsym", "%s: fit raises %s" % (label, r)))
+                continue
+            if "init" not in r:
+                sub.append(Clause(prefix + ".loop.body", "undecided", "", "%s: loop not reached" % label))
+                continue
+            ini = r["init"]
+            ok = ini["step"] == 0 and not isinstance(ini["step"], bool)
+            sub.append(Clause(prefix + ".loop.init", "discharged" if ok else "refuted", "npsym", "" if ok else "%s: step starts at %r" % (label, ini["step"])))
+            if r["outcome"] == "exit":
+                continue
+            post = r["post"]
+            cl = []
+            V.compare_terms(P(post["step"]), k + 1, F, prefix + ".loop.body", cl)
+            if not T.equal(P(post["distance"]), T.sym("Lnext")):
+                cl.append(Clause(prefix + ".loop.body", "refuted", "npsym", "%s: criterion variable after the iteration is %r, not the M-step's" % (label, post["distance"])))
+            m = r["machine"]
+            amd = m.fields.get("average_min_distance")
+            if not (isinstance(amd, Poly) and T.equal(amd, T.sym("Lnext"))):
+                cl.append(Clause(prefix + ".loop.body", "refuted", "npsym", "%s: reported average_min_distance is %r, not the M-step's criterion" % (label, amd)))
+            xs, mu = KM.mk_data(), KM.mk_means()
+            exp_means, exp_crit = KM.spec_m_step(None, [KM.spec_e_step(None, xs, mu)], KM.Nn)
+            V.compare(m.fields["centroids_"], exp_means, F.extend(pc), prefix + ".loop.body.centroids", cl)
+            for avg in r.get("avg_terms", []):
+                V.compare_terms(P(avg), P(exp_crit), F, prefix + ".loop.body.criterion", cl)
+            for ns in r.get("n_samples", []):
+                V.compare_terms(P(ns), KM.Nn, F, prefix + ".loop.body.n_samples", cl)
+            if not r.get("avg_terms"):
+                cl.append(Clause(prefix + ".loop.body", "refuted", "npsym", "%s: m_step not called" % label))
+            for c in cl:
+                c.detail = "%s: %s" % (label, c.detail)
+                c.name = prefix + ".loop.body"
+            sub += cl
+    if recs:
+        kz, Lf = z3.Int("s_k"), z3.Function("L", z3.IntSort(), z3.RealSort())
+        mapping = {"k": (kz, "int"), "Lk": (Lf(kz), "real"), "Lnext": (Lf(kz + 1), "real"),
+                   "max_steps": (z3.Int("s_max_steps"), "int"), "conv_thr": (z3.Real("s_conv_thr"), "real")}
+        tr = mk_tr(mapping, F)
+        sigs = []
+        for kind, isolated, I, paths in recs:
+            g_true, brk, cont = [], [], []
+            for pc, (kk, r) in paths:
+                if kk != "ok" or "outcome" not in r:
+                    continue
+                gp = T.c_and(*r.get("guard_path", [])) if r.get("guard_path") else T.TRUE
+                zg = tr.cond(gp)
+                if r["outcome"] == "exit":
+                    continue
+                g_true.append(zg)
+                bp = T.c_and(*r.get("body_path", [])) if r.get("body_path") else T.TRUE
+                zb = tr.cond(bp)
+                (brk if r["outcome"] == "break" else cont).append(z3.And(zg, zb))
+            sigs.append((kind, isolated, z3.Or(*g_true) if g_true else z3.BoolVal(False),
+                         z3.Or(*brk) if brk else z3.BoolVal(False), z3.Or(*cont) if cont else z3.BoolVal(False)))
+        kind, isolated, guard, brk, cont = sigs[0]
+        M = z3.Int("s_max_steps")
+        spec_guard = (kz < M) if has_max else z3.BoolVal(True)
+        s = z3.Solver()
+        for ax in tr.axioms:
+            s.add(ax)
+        s.add(kz >= 0, z3.Not(guard == spec_guard))
+        r = s.check()
+        sub.append(Clause(prefix + ".loop.body", "discharged" if r == z3.unsat else "refuted", "z3",
+                          "guard == (max_iter is None or step < max_iter)" + ("" if r == z3.unsat else " FAILS: model %s" % s.model())))
+        for kind2, iso2, g2, b2, c2 in sigs[1:]:
+            s = z3.Solver()
+            for ax in tr.axioms:
+                s.add(ax)
+            s.add(kz >= 0, z3.Not(z3.And(g2 == guard, b2 == brk, c2 == cont)))
+            r = s.check()
+            sub.append(Clause(prefix + ".loop.body", "discharged" if r == z3.unsat else "refuted", "z3",
+                              "stopping behaviour of the %s%s branch equals the NumPy branch" % (kind2, "/isolated" if iso2 else "")))
+        generic_vcs(prefix, guard, brk, cont, has_thr, has_max, sub, axioms=list(tr.axioms))
+    tag = "[thr=%s,max=%s]" % ("set" if has_thr else "None", "set" if has_max else "None")
+    res = []
+    for nm, note in NOTES:
+        sel = [c for c in sub if c.name == "%s.loop.%s" % (prefix, nm)]
+        res += collapse(sel, "%s.loop.%s%s" % (prefix, nm, tag), note.replace("machine", "centroids"))
+    return res
